@@ -129,16 +129,26 @@ class StubKDTree:
         StubKDTree.instances.append(self)
         self.queries = []
 
-    def _d2(self, q, j):
+    def _d2(self, q, j, p=2):
+        "squared Minkowski-p distance (p in 1, 2, inf), so that DistSq's square root is the distance itself"
         s = 0
         for c in range(self.m):
             d = T(q[c]) - T(self.points[j, c])
-            s = s + d * d
+            if p == 2:
+                s = s + d * d
+            else:
+                a = z3.If(d >= 0, d, -d)
+                s = (s + a) if p == 1 else (a if c == 0 else z3.If(a >= s, a, s))
+        if p != 2:
+            s = s * s
         return z3.simplify(s) if z3.is_expr(s) else z3.RealVal(s)
 
     def query(self, X, k=1, distance_upper_bound=None, **kw):
         """distance_upper_bound=B: only neighbours strictly closer than B are returned; missing ones are
         reported with index n and infinite distance (scipy's documented behaviour)"""
+        pnorm = kw.get("p", 2)
+        if pnorm not in (1, 2, np.inf) or kw.get("eps", 0) != 0:
+            raise E.HarnessError("cKDTree.query with p=%r eps=%r is not modelled (p in 1, 2, inf and exact search only)" % (pnorm, kw.get("eps", 0)))
         X = _objarr(X)
         single = X.ndim == 1
         X2 = np.atleast_2d(X)
@@ -151,7 +161,7 @@ class StubKDTree:
         dist = np.empty((mq, ks), dtype=object)
         eng = E.ENGINE
         for r in range(mq):
-            d2 = [self._d2(X2[r], j) for j in range(self.n)]
+            d2 = [self._d2(X2[r], j, pnorm) for j in range(self.n)]
             chosen = []
             for c in range(ks):
                 if c >= self.n:
